@@ -116,6 +116,15 @@ Proof.
 Qed.
 Print Assumptions C20_order_irrelevant.
 
+Example C20_order_premises_satisfiable :
+  Permutation [DRepRegistration 5; PoolRetirement; StakeDeregistration None] [StakeDeregistration None; DRepRegistration 5; PoolRetirement]
+  /\ Permutation [1; 2; 3] [3; 1; 2].
+Proof.
+  split.
+  - apply Permutation_sym, (Permutation_cons_app [DRepRegistration 5; PoolRetirement] []). reflexivity.
+  - apply Permutation_sym, (Permutation_cons_app [1; 2] []). reflexivity.
+Qed.
+
 (* the defects (today's code = switches true): without the class exclusions the statements are false *)
 Theorem C20_helper_implicit_input_refuted :
   get_implicit_input_gen true witness_retirement 500000000 2000000 = Ok 500000000 /\
